@@ -21,7 +21,7 @@ ASSUMPTIONS = [
     "termination is restated as: each step finishes within 2 s of process CPU time",
     "bounded history length (30..300 steps); CO_NODE zero-filled except in the junk-fill configuration sample",
 ]
-VARIANTS = ["asan", "asan2", "msan",
+VARIANTS = ["asan", "asan2", "msan", "lean", "asanp", "asanq",
             ("casan", ("cosim.c",), "cosim", {"thorough_only": True}),
             ("plain", ("cosim.c",), "cosim", {"thorough_only": True})]
 
@@ -131,6 +131,10 @@ def plan(tier, seed):
             variant = "casan"
         if i % 5 == 4:
             variant = "msan"          # MemorySanitizer build: use of uninitialised values, frames carrying uninitialised bytes
+        if i % 10 in (1, 3, 7):
+            # compile-time configurations off the default: no LSS slave / SDO client; CO_RPDO_N=2, CO_TPDO_N=6; CO_RPDO_N=5, CO_TPDO_N=3
+            # (the generated dictionaries keep their four PDO records per direction: surplus records are plain objects)
+            variant = {1: "lean", 3: "asanp", 7: "asanq"}[i % 10]
         items.append(("fuzz", variant, i, per))
     if tier == "thorough":
         for i in range(12):
@@ -178,6 +182,22 @@ def work(item, ctx):
                 cfg = H.full_config(rng, ns, drop=drop, fill=0xA5 if rng.random() < 0.05 else 0)
             g = H.Hostile(rng, cfg, ns)
             lines = g.history(rng.choice([30, 60, 120, 300]))
+            if rng.random() < 0.25:
+                # deferred processing: the tick interrupts are served at once, the timer processing of the background loop follows one to
+                # three inputs later (several expired events wait, and frames / API calls delete or restart timers among them)
+                out_ = []
+                due_ = []
+                for l_ in lines:
+                    if l_.startswith("tick ") and rng.random() < 0.7:
+                        out_.append("svc " + l_.split()[1])
+                        due_.append(len(out_) + rng.randint(0, 3))
+                    else:
+                        out_.append(l_)
+                    while due_ and due_[0] <= len(out_):
+                        due_.pop(0)
+                        out_.append("tproc")
+                lines = out_ + ["tproc"]
+                res.counters["histories_with_deferred_timer_processing"] += 1
             if cfg.has(0x2031, 0):
                 # the application resets the node from inside the write function of an object while the SDO request is being served
                 rid = 0x600 + cfg.nodeid
